@@ -846,13 +846,19 @@ Definition msg_update_alliance (m : AllianceMsg) : M unit :=
         match oa with
         | None => fail E_UNKNOWN_ASSET
         | Some a =>
-          match m_wmin m, m_wmax m with
-          | Some lo, Some hi =>
-            if (w <? lo) || (hi <? w) then fail E_WEIGHT_OOB
-            else update_alliance_asset
-                   (set_a_interval (m_interval m) (set_a_rate rt (set_a_take tk (set_a_weight w
-                   (set_a_wmax hi (set_a_wmin lo a))))))
-          | _, _ => panic P_NIL        (* Min.GT on a nil Dec *)
+          (* Min.GT(w) || Max.LT(w): short-circuit; a comparison on a nil Dec panics *)
+          match m_wmin m with
+          | None => panic P_NIL
+          | Some lo =>
+            if w <? lo then fail E_WEIGHT_OOB
+            else match m_wmax m with
+                 | None => panic P_NIL
+                 | Some hi =>
+                   if hi <? w then fail E_WEIGHT_OOB
+                   else update_alliance_asset
+                          (set_a_interval (m_interval m) (set_a_rate rt (set_a_take tk (set_a_weight w
+                          (set_a_wmax hi (set_a_wmin lo a))))))
+                 end
           end
         end
     | _, _, None => panic P_NIL
